@@ -499,6 +499,9 @@ class Parser:
             return ("bytes", [ord(c) for c in bytes(v[2:-1], "utf-8").decode("unicode_escape")])
         if v == "(":
             self.i += 1
+            if self.at(")"):
+                self.i += 1
+                return ("paren_unit",)
             e = self.expr()
             self.eat(")")
             return ("paren", e)
@@ -832,6 +835,8 @@ class Gen:
             return ("none", "Option<?>")
         if e[0] == "var" and e[1] in ("true", "false") and e[1] not in env:
             return (e[1], "bool")
+        if e == ("paren_unit",):
+            return ("()", "()")
         if e[0] == "var":
             if e[1] in env:
                 return env[e[1]]
@@ -1301,9 +1306,10 @@ class Gen:
                     return self.call_fn(cands[0], f[1], None, e[2], env, k, ret)
             if f[0] == "path" and len(f[1]) == 2 and f[1][0] in getattr(self, "impl_types", {}):
                 tgt = self.impl_types[f[1][0]]
-                if (tgt, f[1][1]) not in self.sigs:
+                tgt, pre_ = tgt if isinstance(tgt, tuple) else (tgt, "")
+                if (tgt, pre_ + f[1][1]) not in self.sigs:
                     raise Unsupported(f"call of untranslated function {f[1][0]}::{f[1][1]}")
-                return self.call_fn(tgt, f[1][1], None, e[2], env, k, ret)
+                return self.call_fn(tgt, pre_ + f[1][1], None, e[2], env, k, ret)
             if f[0] == "path" and len(f[1]) == 2 and f[1][0] in ("Wad", "Self"):
                 tgt = "Wad" if f[1][0] == "Wad" else self.cur_ns
                 if (tgt, f[1][1]) not in self.sigs:
@@ -1668,6 +1674,8 @@ class Gen:
         if f[0] == "path" and len(f[1]) == 2:
             tgt = getattr(self, "impl_types", {}).get(f[1][0]) or (self.cur_ns if f[1][0] == "Self" else None)
             nm = f[1][1]
+            if isinstance(tgt, tuple):
+                tgt, nm = tgt[0], tgt[1] + nm
         elif f[0] == "var":
             tgt, nm = self.cur_ns, f[1]
         if tgt and (tgt, nm) in getattr(self, "writers", set()):
@@ -1939,6 +1947,14 @@ FILES_MERKLE = [("Merkle", "packages/contract-utils/src/crypto/hashable.rs", ["c
                 ("Merkle", "packages/contract-utils/src/crypto/merkle.rs", ["verify", "verify_with_index"])]
 TYMAPS_MERKLE = {"packages/contract-utils/src/crypto/hashable.rs": {"H": "Bytes32", "S": "Hasher!", "Output": "Bytes32"},
                  "packages/contract-utils/src/crypto/merkle.rs": {"H": "Hasher!"}}
+STORE_AL = {"AllowTok": dict(STORE_FUNGIBLE["Fungible"], **{"Allowed": (["Address"], "()")})}
+READS_AL = {"AllowTok": READS_FUNGIBLE["Fungible"]}
+FILES_AL = [("AllowTok", "packages/tokens/src/fungible/storage.rs",
+             ["total_supply", "balance", "allowance_data", "allowance", "set_allowance", "spend_allowance", "update",
+              "approve", "transfer", "transfer_from"]),
+            ("AllowTok", "packages/tokens/src/fungible/extensions/burnable/storage.rs", ["burn", "burn_from"]),
+            ("AllowTok", "packages/tokens/src/fungible/extensions/allowlist/storage.rs",
+             ["allowed", "allow_user", "disallow_user", "transfer", "transfer_from", "approve", "burn", "burn_from"])]
 STORE_NFTT = {"NftT": {"Approval": (["u32"], "ApprovalData", "temp"), "ApprovalForAll": (["Address", "Address"], "u32", "temp")}}
 READS_NFTT = {"NftT": {"ledger_sequence": "u32", "min_temp_ttl": "u32", "max_ttl": "u32", "authorized": "addr2bool"}}
 FILES_NFTT = [("NftT", "packages/tokens/src/non_fungible/storage.rs",
@@ -2022,7 +2038,7 @@ def deps(e, acc):
 
 
 def translate(repo, FILES=FILES, DEPS=(), imports=("OZ.Model.RustSem",), reads=None, structs=None, tymaps=None,
-              store=None, impl_types=None, stubs=None, rename_types=None, key_params=None):
+              store=None, impl_types=None, stubs=None, rename_types=None, key_params=None, fn_prefix=None):
     """DEPS: files translated elsewhere whose signatures are needed (parsed, not emitted);
     reads: {namespace: {getter name: Rust type}} — the side-effect-free state getters (`Self::name(e)`)
     that become fields of the record `<namespace>.Reads` passed to every function of that namespace"""
@@ -2052,6 +2068,9 @@ def translate(repo, FILES=FILES, DEPS=(), imports=("OZ.Model.RustSem",), reads=N
                     continue
                 if it[5] and it[5][1] not in (None, "SorobanMulDiv"):
                     continue   # operator trait impls (Add, Sub, ...) are outside the property
+                pre = (fn_prefix or {}).get(rel, "")
+                if pre:
+                    it = (it[0], pre + it[1]) + tuple(it[2:])
                 fns.append(it)
         for f in fns:
             self_ty = f[5][0] if f[5] else None
@@ -2479,7 +2498,12 @@ def main():
                 sys.stdout.write(txt)
         sys.exit(rc)
     try:
-        if "--nft-ttl" in sys.argv:
+        if "--allowlist" in sys.argv:
+            txt = translate(repo, FILES_AL, reads=READS_AL, structs=STRUCTS_FUNGIBLE, store=STORE_AL,
+                            impl_types={"Base": "AllowTok", "AllowList": ("AllowTok", "al_")},
+                            fn_prefix={"packages/tokens/src/fungible/extensions/allowlist/storage.rs": "al_"},
+                            rename_types={"AllowanceData": "AllowTok.AllowanceData", "AllowanceKey": "AllowTok.AllowanceKey"})
+        elif "--nft-ttl" in sys.argv:
             txt = translate(repo, FILES_NFTT, imports=("OZ.Model.RustSemHost",), reads=READS_NFTT, structs=STRUCTS_NFT, store=STORE_NFTT,
                             impl_types={"Base": "NftT"}, rename_types={"ApprovalData": "NftT.ApprovalData"})
         elif "--fungible-ttl" in sys.argv:
